@@ -6,7 +6,7 @@ PROPERTY = "C16"
 PROPS_VO = "Props/C16"
 AXIOMS_OK = []
 ASSUMPTIONS = [
-    "element type of the correspondence histories is i32 (PushStack<i32>); nested Item elements are exercised through the C08/C03 suites",
+    "element types of the correspondence histories: i32 (PushStack<i32>, suite stack) and nested code items (PushStack<Item>, suite stackitem: `==` is Item's shallow PartialEq, equal_at compares the Display text; elements are reported structurally, to_string as text)",
     "raw Vec::swap indices out of range are outside the quantifier (Vec's own contract); both sides are still compared there",
 ]
 
@@ -24,11 +24,11 @@ def alphabet(maxpos, vals):
     return ops
 
 
-def rand_op(rng, ln):
-    tag = rng.choice([0, 1, 2, 3, 4, 6, 7, 8, 9, 10, 10, 10, 11, 11, 12, 13, 14, 15, 16, 17, 18, 19, 20] + ([5] if rng.random() < 0.05 else []))
+def rand_op(rng, ln, val=None, tags=None):
+    tag = rng.choice(tags) if tags else rng.choice([0, 1, 2, 3, 4, 6, 7, 8, 9, 10, 10, 10, 11, 11, 12, 13, 14, 15, 16, 17, 18, 19, 20] + ([5] if rng.random() < 0.05 else []))
     pos = lambda: rng.choice([0, 1, 2, ln - 1, ln, ln + 1, ln + 2, rng.randrange(0, ln + 3)]) if ln >= 0 else 0
     pos2 = lambda: max(0, pos())
-    val = lambda: rng.choice([0, 1, -1, 7, 2147483647, -2147483648, rng.randrange(-50, 50)])
+    val = val or (lambda: rng.choice([0, 1, -1, 7, 2147483647, -2147483648, rng.randrange(-50, 50)]))
     if tag in (0, 1, 4, 5, 8, 15, 16): return [tag]
     if tag == 2: return [2, val()]
     if tag in (3, 6): return [tag, pos2(), val()]
@@ -51,6 +51,109 @@ def sim_len(ln, op):
     if t == 17 and op[1] <= ln: return ln - op[1]
     if t == 20: return ln + len(op[1])
     return ln
+
+
+# ---------------------------------------------------------------------------------------------
+# PushStack<Item>: elements whose Display text / shallow `==` does not determine them
+def lookalike_groups():
+    """groups of DIFFERENT items with the SAME Display text (what equal_at compares); within most groups some
+    members are also `==` (Item's PartialEq is shallow: same kind) and some are not"""
+    from gen.stategen import L, I, N, B, Z, IDX, F, BV, IV, FV
+    from gen.pools import fbits
+    f = fbits
+    nan = [0x7fc00000, 0xffc00000, 0x7fc00001, 0x7fffffff]
+    g = [
+        [F(f(1.0)), F(f(1.0001)), F(f(1.0004)), F(f(0.99951)), N("1.000"), I("1.000")],
+        [F(0x80000000), F(f(-0.0004)), F(f(-1e-30)), N("-0.000")],
+        [F(0), F(f(0.0004)), F(1), I("0.000")],
+        [F(b) for b in nan] + [N("NaN"), I("NaN")],
+        [F(0x7f800000), N("inf"), I("inf")],
+        [N("FOO"), I("FOO")],
+        [N("INTEGER.+"), I("INTEGER.+")],
+        [Z(3), N("3"), I("3")],
+        [Z(-2147483648), N("-2147483648")],
+        [IDX(3, 5), N("3/5"), I("3/5")],
+        [B(True), N("TRUE"), I("TRUE")],
+        [L(), N("(  )"), I("(  )")],
+        [L(Z(1), Z(2)), L(N("1"), Z(2)), L(Z(1), I("2")), N("( 1 2 )"), L(N("1 2"))],
+        [L(F(f(1.0001)), N("FOO")), L(F(f(1.0004)), I("FOO")), L(F(f(1.0)), N("FOO")), L(N("1.000 FOO")), L(N("1.000"), N("FOO"))],
+        [L(L(F(f(2.5)), L()), Z(7)), L(L(F(f(2.5001)), L()), Z(7)), L(L(F(f(2.5)), L()), N("7")), L(L(N("2.500"), L()), Z(7))],
+        [L(L(Z(1)), Z(2)), L(N("( 1 )"), Z(2)), L(L(Z(1)), N("2"))],
+        [IV([1, 2]), N("[1,2]"), I("[1,2]")],
+        [FV([f(1.0001), f(2.0)]), FV([f(1.0004), f(2.0)]), FV([f(1.0), f(2.0004)]), N("[1.000,2.000]")],
+        [FV([nan[0]]), FV([nan[1]]), FV([nan[2]]), N("[NaN]")],
+        [BV([True, False]), N("[TRUE,FALSE]")],
+        [IV([]), BV([]), FV([]), N("[]"), I("[]")],
+    ]
+    return g
+
+
+def item_alphabet(vals, maxpos=2):
+    """every operation of the API with elements from vals (replace with every one of them at every position)"""
+    ops = [[0], [1], [4], [8], [15], [16]]
+    ops += [[2, a] for a in vals]
+    ops += [[3, i, a] for i in range(2) for a in vals]
+    ops += [[6, i, a] for i in range(maxpos + 1) for a in vals]
+    for tag in (7, 9, 12, 13, 17, 18, 19):
+        ops += [[tag, i] for i in range(maxpos + 1)]
+    ops += [[10, a] for a in vals] + [[11, a] for a in vals]
+    ops += [[14, i, j] for i in range(2) for j in range(2)]
+    ops += [[20, list(vals[:2])]]
+    return ops
+
+
+def item_streams(rng, tier):
+    out = []
+    groups = lookalike_groups()
+    # (a) every ordered pair of look-alikes: replace one by the other at every position of a 1..3 element stack and
+    #     read the element back in every way the API offers
+    cases = []
+    k = 0
+    for g in groups:
+        for a in g:
+            for b in g:
+                if a is b:
+                    continue
+                for init, i in (([a], 0), ([b, a], 0), ([a, b], 1), ([b, a, b], 1)):
+                    ops = [[6, i, b], [9, i], [18, i], [3, i, b], [3, i, a], [1], [19, len(init)], [12, i], [16]]
+                    cases.append(sx_str([k % 2, [], init, ops])); k += 1
+    out.append(Stream("item-lookalike-pairs", "stackitem", "stackitem.check", cases,
+                      "PushStack<Item>: for every ordered pair (a, b) of different items with the same Display text (%d groups: floats equal to 3 decimals, -0.0 / tiny negatives, NaN payloads, "
+                      "name vs instruction vs literal with the same text, lists / vectors that differ only in such members, empty vectors of the three kinds) replace a by b at each position of a 1..3 element stack, "
+                      "then get/get_mut, copy, equal_at, to_string, copy_vec, yank, pop; elements reported structurally" % len(groups)))
+    # (b) all histories up to length 2 over the whole API, elements = three look-alikes
+    trip = [[g[0], g[1], g[-1]] for g in groups if len(g) >= 3]
+    if tier == "quick":
+        trip = [trip[j] for j in sorted(rng.sample(range(len(trip)), 4))]
+    cases = []
+    for t in trip:
+        alpha = item_alphabet(t)
+        for init in ([t[0]], [t[1], t[0], t[2]]):
+            for d in (1, 2):
+                for ops in itertools.product(alpha, repeat=d):
+                    cases.append(sx_str([(len(cases)) % 2, [], init, list(ops)]))
+    out.append(Stream("item-exhaustive<=2", "stackitem", "stackitem.check", cases,
+                      "PushStack<Item>: all histories up to length 2 over %d operations (positions 0..2) whose elements are three look-alike items, on stacks of 1 and 3 such items; %d triples%s"
+                      % (len(item_alphabet(trip[0])), len(trip), " (a seeded sample of the groups)" if tier == "quick" else "")))
+    # (c) long random histories: elements drawn from one or two groups (collisions are the rule, not the exception),
+    #     replace / get / copy / pop favoured
+    n = {"quick": 400, "thorough": 4000, "search": 4000}[tier]
+    tags = [0, 1, 2, 3, 3, 4, 6, 6, 6, 6, 6, 7, 8, 9, 9, 9, 10, 10, 10, 11, 11, 12, 13, 14, 15, 16, 16, 17, 18, 18, 19, 20]
+    cases = []
+    for k in range(n):
+        pool = [x for g in rng.sample(groups, rng.choice([1, 1, 2, 3])) for x in g]
+        val = lambda: rng.choice(pool)
+        ln = rng.randrange(0, 6)
+        init = [val() for _ in range(ln)]
+        ops = []
+        for _ in range(120):
+            op = rand_op(rng, ln, val, tags + ([5] if rng.random() < 0.03 else []))
+            ops.append(op)
+            ln = sim_len(ln, op)
+        cases.append(sx_str([k % 2, [], init, ops]))
+    out.append(Stream("item-random120", "stackitem", "stackitem.check", cases,
+                      "PushStack<Item>: random histories of 120 operations, elements drawn from 1..3 look-alike groups, replace / get / copy / pop favoured, positions concentrated at the boundary"))
+    return out
 
 
 def streams(seed, tier):
@@ -83,11 +186,14 @@ def streams(seed, tier):
             ln = sim_len(ln, op)
         cases.append(sx_str([k % 2, init, ops]))
     out.append(Stream("random200", "stack", "stack.check", cases, "random histories of 200 operations, positions concentrated at the boundary"))
+    out += item_streams(random.Random(seed + 16), tier)
     return out
 
-TECHNIQUE = "Coq refinement proof (Vec model refines top-first list, induction over operation histories) + exhaustive/random differential correspondence against PushStack<i32>"
+TECHNIQUE = "Coq refinement proof (Vec model refines top-first list, induction over operation histories) + exhaustive/random differential correspondence against PushStack<i32> and PushStack<Item>"
 DESIGN_REF = "DESIGN.md section 6.C16"
 LEVEL_TEXT = ("Machine-checked theorem C16_stack_refines_seq: for every element type, every build profile and every well-formed history over the whole public API, "
               "the Vec-level model (with the real len-(i+1) index arithmetic, usize underflow and Vec index panics modelled) returns normally and yields exactly the outputs and final contents of a plain top-first list; "
-              "C16_out_of_range_absent covers absent positions. The model is tied to the code by running every history of length <= 2 (thorough: 3) over 83 operations plus long random histories on both the real PushStack and the extracted model, and by evaluating the specification itself on the implementation's outputs.")
+              "C16_out_of_range_absent covers absent positions. The model is tied to the code by running every history of length <= 2 (thorough: 3) over 83 operations plus long random histories on both the real PushStack and the extracted model, and by evaluating the specification itself on the implementation's outputs. "
+              "Second instance, PushStack<Item> (C16_wf_bg_sound, C16_generic_suite_result_is_spec: the element-generic wire suite prints exactly the specification's run): histories whose elements are different items with the same Display text "
+              "(floats equal to 3 decimals, NaN payloads, name vs instruction vs literal of the same text, lists and vectors differing only in such members), every element read back structurally.")
 LEVEL_NOTE = "Trusted: Coq kernel, extraction (ExtrOcamlBasic), ocaml/driver.ml, the Rust harness and generators; theorems are closed under the global context (no axioms). The model is hand-written: behaviour outside the generated histories is tied only by the proof-to-model link, not to the code."
